@@ -176,6 +176,68 @@ fn replay_one<P: Pad>(events: Vec<Value>) -> ReplayOutcome {
     ReplayOutcome { lines: rec::take_output(), drift, consumed, total }
 }
 
+/// Plain scripts: one JSON array of top-level `call` events per line; a call may carry
+/// "ft": [k, j] (k-th trace callback of the operation panics after j children),
+/// "ff": k / "fd": k (k-th finalize / drop callback panics). First element: reset event.
+fn script_one<P: Pad>(events: Vec<Value>) -> Vec<String> {
+    let reset = events[0].clone();
+    start_run::<P>(&reset);
+    for e in events.iter().skip(1) {
+        let mut plan = director::FaultPlan::default();
+        if let Some(a) = e.get("ft").and_then(|v| v.as_array()) {
+            plan.trace = Some((a[0].as_u64().unwrap() as u32, a[1].as_u64().unwrap() as u32));
+        }
+        plan.finalize = e.get("ff").and_then(|v| v.as_u64()).map(|v| v as u32);
+        plan.drop = e.get("fd").and_then(|v| v.as_u64()).map(|v| v as u32);
+        director::set(director::Dir::Script(plan));
+        let mut c = e.clone();
+        if let Some(m) = c.as_object_mut() {
+            m.remove("ft");
+            m.remove("ff");
+            m.remove("fd");
+        }
+        if !world::valid::<P>(&c) {
+            break;
+        }
+        world::exec::<P>(&c);
+    }
+    director::set(director::Dir::Idle);
+    world::uninstall();
+    rec::take_output()
+}
+
+fn main_script(args: &[String]) {
+    let inp = arg(args, "--in").expect("--in");
+    let out = arg(args, "--out").expect("--out");
+    let rdr = std::io::BufReader::new(std::fs::File::open(&inp).expect("open in"));
+    let mut f = BufWriter::new(std::fs::File::create(&out).expect("create out"));
+    let (mut n, mut events) = (0u64, 0usize);
+    for (lineno, line) in rdr.lines().enumerate() {
+        let line = line.unwrap();
+        if line.trim().is_empty() {
+            continue;
+        }
+        let mut evs: Vec<Value> = match serde_json::from_str(&line) {
+            Ok(Value::Array(a)) => a,
+            _ => {
+                eprintln!("harness: bad script line {}", lineno + 1);
+                std::process::exit(2);
+            }
+        };
+        let given = evs[0].clone();
+        let g = |k: &str, d: u64| given.get(k).and_then(|v| v.as_u64()).unwrap_or(d) as u32;
+        evs[0] = reset_event(lineno as u64, g("ns", 2), g("np", 0), g("nw", 0), given.get("auto").and_then(|v| v.as_bool()).unwrap_or(false));
+        let lines = on_fresh_thread(move || script_one::<()>(evs));
+        n += 1;
+        events += lines.len();
+        for l in lines {
+            writeln!(f, "{}", l).unwrap();
+        }
+    }
+    f.flush().unwrap();
+    println!("{}", json!({"mode": "script", "scripts": n, "events": events, "build": build_flags()}));
+}
+
 fn build_matches(reset: &Value) -> bool {
     let b = build_flags();
     for k in ["fin", "weak", "clean", "dbg"] {
@@ -257,6 +319,7 @@ fn main() {
     match args.get(1).map(|s| s.as_str()) {
         Some("random") => main_random(&args),
         Some("replay") => main_replay(&args),
+        Some("script") => main_script(&args),
         Some("info") => println!("{}", json!({"build": build_flags(), "node_box_size": node_box_size::<()>()})),
         _ => {
             eprintln!("usage: ccverif random|replay|info ...");
